@@ -95,6 +95,8 @@ let read_deadline = ref (-1)
 let read_tl = ref (-1)
 let first_clock = ref true
 let polls_after_deadline = ref 0
+let stopped_by = ref 0
+let stop_reported = ref false
 (* poll reported stdin writable, and the library polled again (or returned) without having written to it *)
 let pending_in = ref false
 let starved = ref 0
@@ -309,6 +311,7 @@ let () =
          choices := if c = "-" then [] else Stdlib.List.map (fun x -> nat_of_int (int_of_string x)) (String.split_on_char ',' c);
          reply "ok"
        | ["popen"; ex; raw; reap; dies] ->
+         stopped_by := 0; stop_reported := false;
          pw := Some { PopenSM.pr = PopenSM.PAlive;
                       PopenSM.exit_at = (if ex = "never" then None else Some (n_of_int (int_of_string ex), n_of_int (int_of_string raw)));
                       PopenSM.reap_at = (if reap = "never" then None else Some (n_of_int (int_of_string reap)));
@@ -381,8 +384,25 @@ let () =
          let (s, a) = PopenSM.start_op !lp (parse_opname name) in
          lpst := Some s; lpexpect := Some a;
          reply "ok"
-       | ["waitpid"; nh] -> reply_presult (serve_pcall (PopenSM.PWaitpid (nh = "1")))
-       | ["kill"; sg] -> reply_presult (serve_pcall (PopenSM.PKill (n_of_int (int_of_string sg))))
+       | ["waitpid"; nh; other] ->
+         (* Lib/PopenSM.v abstracts the options argument to WNOHANG or nothing: any other bit is outside the model.
+            To exhibit what such a bit does, this glue (not the proved kernel model) emulates job-control stops:
+            with WUNTRACED (2) a stopped, still unreported child is reported as stopped. *)
+         let o = int_of_string other in
+         if o <> 0 then diverge (Printf.sprintf "E1:PopenSM op#%d: real=waitpid(options %s| 0x%x) model=waitpid(WNOHANG or 0 only)" !opidx (if nh = "1" then "WNOHANG " else "") o);
+         let alive = (match !pw with Some w -> (match (PopenSM.padvance w w.PopenSM.pnow).PopenSM.pr with PopenSM.PAlive -> true | _ -> false) | None -> false) in
+         if o land 2 <> 0 && !stopped_by > 0 && not !stop_reported && alive then begin
+           incr ncalls; incr op_calls; stop_reported := true;
+           Buffer.add_string op_log (Printf.sprintf " waitpid(WUNTRACED)=stopped:%d" !stopped_by);
+           lpexpect := None;
+           reply (Printf.sprintf "pid 1 %d" ((!stopped_by lsl 8) lor 0x7f))
+         end else
+           reply_presult (serve_pcall (PopenSM.PWaitpid (nh = "1")))
+       | ["kill"; sg] ->
+         let g = int_of_string sg in
+         if g = 19 || g = 20 || g = 21 || g = 22 then (stopped_by := g; stop_reported := false)
+         else if g = 18 then stopped_by := 0;
+         reply_presult (serve_pcall (PopenSM.PKill (n_of_int g)))
        | ["fkill"; pid; sg] ->
          diverge (Printf.sprintf "E1:PopenSM op#%d: real=kill(pid %s, sig %s) aimed at a foreign pid" !opidx pid sg);
          Buffer.add_string op_log (Printf.sprintf " FOREIGNKILL(%s,%s)" pid sg);
